@@ -30,7 +30,10 @@ def gen_upload(rng, max_total):
     for f in fields:
         if 'value' in f and (b'\r\n--' + boundary) in f['value'].encode():
             f['value'] = 'v'
-    body = mplib.encode_form(fields, boundary, epilogue=rng.choice([b'', b'\r\n', b'\r\nepilogue']))
+    # RFC 2046: anything may follow the closing delimiter (an epilogue that itself looks like part headers included)
+    body = mplib.encode_form(fields, boundary, epilogue=rng.choice([
+        b'', b'\r\n', b'\r\nepilogue', b'\r\n\r\n', b'\r\nX-Trailer: 1\r\n\r\nnot a part\r\n', b'\r\n\rx', b'\r\n\r\n--' + boundary + b'\r\n\r\n',
+        b'--\r\n\r\n', b'\n\r\n\r\n']))
     return boundary, body
 
 
@@ -50,7 +53,10 @@ def cuts_for(rng, body, boundary, thorough):
                     near.add(i + d)
             i = body.find(tok, i + 1)
         near = sorted(near)
-        singles = sorted(set(rng.sample(near, min(len(near), limit // 2)) + rng.sample(singles, limit // 2)))
+        last = body.find(tok + b'--')
+        last = last if last >= 0 else body.rfind(tok)
+        closing = [p for p in range(last - 3, last + len(tok) + 6) if 0 < p < n]      # every cut around the closing delimiter
+        singles = sorted(set(rng.sample(near, min(len(near), limit // 2)) + rng.sample(singles, limit // 2) + closing))
     for c in singles:
         out.append([c, n - c])
     # double cuts around delimiter occurrences
